@@ -185,9 +185,20 @@ class Script:
       handler.__name__ = me.name_of(i)
       handler.__qualname__ = me.name_of(i)
       return handler
+    def counted(f):
+      # a user's own decorator on an un-instrumented state function (written with functools.wraps, as decorators are)
+      import functools
+
+      @functools.wraps(f)
+      def wrapper(chart, e):
+        wrapper.calls += 1
+        return f(chart, e)
+      wrapper.calls = 0
+      return wrapper
+    wrapped = self.c.get("hstyle", "fn") == "wrapped"
     for i in range(1, self.n + 1):
       self.raw[i] = make(i)
-      self.fn[i] = spy_on(self.raw[i]) if spied else self.raw[i]
+      self.fn[i] = spy_on(self.raw[i]) if spied else (counted(self.raw[i]) if wrapped else self.raw[i])
 
   def build_bound(self, spied):
     """state handlers that are methods of a helper object (signature (self, chart, e)): every mention of a state
@@ -287,7 +298,7 @@ class Script:
         cb = functools.partial(generic, i, sg)
       elif style == "object":
         cb = CallableCb(i, sg)
-      elif style == "method" and host is not None:
+      elif style == "method" and host is not None and i not in self.c.get("hand_states", []):
         def meth(chart, e):
           return me.answer_cb(chart, i, e, sg)
         meth.__name__ = name
@@ -308,21 +319,29 @@ class Script:
     from miros.hsm import state_method_template
     from miros.event import signals
     cbs = self.callbacks(hsm)
+    # a mixed chart: the states listed in chart['hand_states'] are written by hand (they name their own super state and are never
+    # registered), the others are assembled from the template and nested under them / around them
+    hand = set(self.c.get("hand_states", []))
+    gen_states = [i for i in range(1, self.n + 1) if i not in hand]
+    if hand:
+      self.build_from_text([t for i, t in enumerate(self.hand_text(), 1) if i in hand], cbs, only=hand, late=lambda: self.fn)
     if use_factory:
-      bps = {i: hsm.create(state="s%d" % i) for i in range(1, self.n + 1)}
-      for i in range(1, self.n + 1):
+      bps = {i: hsm.create(state="s%d" % i) for i in gen_states}
+      for i in gen_states:
         self.fn[i] = self.raw[i] = bps[i].to_method()
       for (i, sg), cb in sorted(cbs.items()):
-        bps[i].catch(signal=getattr(signals, sg), handler=cb)
-      for i in range(1, self.n + 1):
+        if i not in hand:
+          bps[i].catch(signal=getattr(signals, sg), handler=cb)
+      for i in gen_states:
         p = self.c["par"][i - 1]
         hsm.nest(self.fn[i], parent=self.fn[p] if p else None)
     else:
-      for i in range(1, self.n + 1):
+      for i in gen_states:
         self.fn[i] = self.raw[i] = state_method_template("s%d" % i)
       for (i, sg), cb in sorted(cbs.items()):
-        hsm.register_signal_callback(self.fn[i], getattr(signals, sg), cb)
-      for i in range(1, self.n + 1):
+        if i not in hand:
+          hsm.register_signal_callback(self.fn[i], getattr(signals, sg), cb)
+      for i in gen_states:
         p = self.c["par"][i - 1]
         hsm.register_parent(self.fn[i], self.fn[p] if p else hsm.top)
     return cbs
@@ -348,16 +367,26 @@ class Script:
       out.append("\n".join(lines) + "\n")
     return out
 
-  def build_from_text(self, texts, cbs):
+  def build_from_text(self, texts, cbs, only=None, late=None):
+    """executes state texts; `only`: the states these texts define (the others are looked up, when a text names them, in late())"""
     from miros.hsm import spy_on
     from miros.event import signals, return_status
-    ns = {"spy_on": spy_on, "signals": signals, "return_status": return_status}
+
+    class NS(dict):
+      # a state text names its super state (or a sibling) as a global: states that are not defined by text resolve to the
+      # functions the script holds at the time of the call
+      def __missing__(self, key):
+        if late is not None and key[:1] == "s" and key[1:].isdigit() and int(key[1:]) in late():
+          return late()[int(key[1:])]
+        raise KeyError(key)
+    ns = NS({"spy_on": spy_on, "signals": signals, "return_status": return_status})
     for (i, sg), cb in cbs.items():
       ns[cb.__name__] = cb
     for t in texts:
       exec(compile(t, "<generated chart text>", "exec"), ns)
-    for i in range(1, self.n + 1):
+    for i in (range(1, self.n + 1) if only is None else sorted(only)):
       self.fn[i] = self.raw[i] = ns["s%d" % i]
+    return ns
 
   def index_of(self, f, hsm):
     if f is None:
@@ -501,7 +530,10 @@ def run_chart(chart, ops):
         cbs = script.build_template(hsm0, use_factory=(host_kind == "factory"))
         if chart.get("decoy"):
           build_decoy(make_host(host_kind, script, cap), script, host_kind == "factory")
-        texts = [hsm0.to_code(script.fn[i]) for i in range(1, script.n + 1)]
+        hand = set(chart.get("hand_states", []))
+        texts = [hsm0.to_code(script.fn[i]) for i in range(1, script.n + 1) if i not in hand]
+        # (in a mixed chart the hand-written states are executed again with the text of the generated ones: one consistent set)
+        texts += [t for i, t in enumerate(script.hand_text(), 1) if i in hand]
         script.build_from_text(texts, cbs)
         chart["_texts"] = texts
       else:
